@@ -5,7 +5,7 @@
 use super::setcommon::*;
 use crate::core::*;
 use crate::gen::{self, Dec};
-use crate::model::eval::{self as me, compare, MErr};
+use crate::model::eval::{self as me, compare_with, MErr};
 use crate::probe::{self, SetSpec};
 use reval::prelude::*;
 use std::collections::BTreeMap;
@@ -59,7 +59,7 @@ pub fn check(case: &SetCase) -> Verdict {
             return Err(Issue::new("cache:outcome-count", format!("{} outcomes for {} rules", out.len(), model.len())));
         }
         for (i, (v, m)) in out.iter().zip(model.iter()).enumerate() {
-            if let Some(d) = compare(v, m) {
+            if let Some(d) = compare_with(v, m, true) {
                 let what = if matches!(m, Err(MErr::UserFunctionError(..))) || matches!(v, Err(reval::Error::UserFunctionError { .. })) {
                     "failure-outcome"
                 } else {
